@@ -1,32 +1,44 @@
 import Evenio.Driver.Parse
+import Evenio.Model.Gates
+import Evenio.Model.Inv
 /-! Driver: reads histories on stdin (`=== id` starts a fresh world; `>`-lines and `#`-lines are ignored; every
     other line is one operation), prints each operation followed by the model's observation lines. -/
 open Evenio
 
-partial def loop (h : IO.FS.Stream) (w : World) (debug snap : Bool) (dead : Bool) : IO Unit := do
+partial def loop (h : IO.FS.Stream) (w : World) (debug snap : Bool) (dead : Bool) (inv : Bool := false) : IO Unit := do
   let line ← h.getLine
   if line.isEmpty then return ()
   let line := line.trimAscii.toString
   if line.isEmpty || line.startsWith ">" || line.startsWith "#" then
-    loop h w debug snap dead
+    loop h w debug snap dead inv
   else if line.startsWith "===" then
     IO.println line
-    loop h { debug := debug } debug snap false
+    loop h { debug := debug } debug snap false inv
+  else if line.startsWith "gate " then
+    -- C18: the model's verdict on `Q: ReadOnlyQuery`
+    IO.println line
+    match Parse.parseQuery (line.drop 5).toString with
+    | some q => IO.println s!"> readonly={q.roGate}"
+    | none => IO.println "> bad-op"
+    loop h w debug snap dead inv
   else if dead then
-    loop h w debug snap dead
+    loop h w debug snap dead inv
   else
     IO.println line
     match Parse.parseOp line with
     | none =>
       IO.println "> bad-op"
-      loop h w debug snap dead
+      loop h w debug snap dead inv
     | some op =>
       let (w', lines) := step w op snap
       for l in lines do IO.println ("> " ++ l)
+      if inv && !(line == "drop") then
+        let r := w'.invReport
+        IO.println (if r.isEmpty then "> inv ok" else "> inv FAIL:" ++ ",".intercalate r)
       -- after a UB marker the model state is meaningless: stop this history (a failed debug assertion unwinds like a panic)
       let dead' := lines.any fun l => l.startsWith "ub "
-      loop h w' debug snap dead'
+      loop h w' debug snap dead' inv
 
 def main (args : List String) : IO Unit := do
   let debug := !(args.contains "--release")
-  loop (← IO.getStdin) { debug := debug } debug (args.contains "--snap") false
+  loop (← IO.getStdin) { debug := debug } debug (args.contains "--snap") false (args.contains "--inv")
